@@ -1,0 +1,44 @@
+//! Verification hook registry.  Only compiled with `--cfg xet_verif`.
+//!
+//! A process-wide callback can be installed by a verification harness; instrumented code calls
+//! [`point`] (synchronous code, outside of any lock) or [`async_point`] (async code, at places where
+//! the task could be suspended anyway).  With no callback installed both are no-ops.
+
+use std::sync::{Arc, RwLock};
+
+/// Callback for synchronous points.  May block or sleep.
+pub type PointFn = dyn Fn(&'static str) + Send + Sync;
+
+/// Callback for asynchronous points; returns the number of `yield_now` calls to perform.
+pub type AsyncPointFn = dyn Fn(&'static str) -> u32 + Send + Sync;
+
+static POINT_CB: RwLock<Option<Arc<PointFn>>> = RwLock::new(None);
+static ASYNC_POINT_CB: RwLock<Option<Arc<AsyncPointFn>>> = RwLock::new(None);
+
+pub fn set_point_callback(cb: Option<Arc<PointFn>>) {
+    *POINT_CB.write().unwrap() = cb;
+}
+
+pub fn set_async_point_callback(cb: Option<Arc<AsyncPointFn>>) {
+    *ASYNC_POINT_CB.write().unwrap() = cb;
+}
+
+#[inline]
+pub fn point(name: &'static str) {
+    let cb = POINT_CB.read().unwrap().clone();
+    if let Some(cb) = cb {
+        cb(name);
+    }
+}
+
+#[cfg(not(target_family = "wasm"))]
+#[inline]
+pub async fn async_point(name: &'static str) {
+    let cb = ASYNC_POINT_CB.read().unwrap().clone();
+    if let Some(cb) = cb {
+        let n = cb(name);
+        for _ in 0..n {
+            tokio::task::yield_now().await;
+        }
+    }
+}
